@@ -313,3 +313,103 @@ func checkNestedInitOnlyWhenAbsent(p *core.Prog, r *core.Report, ds *core.Descri
 	}
 	return n
 }
+
+// checkNestedMapWrites: an insert into a map that is itself an entry of another map (outer[k][k2] = v) panics
+// when outer[k] was never created. Every path to such an insert passes either the creation of outer[k] (a
+// store of a fresh map under the same key), or the edge on which the key was found present — in outer itself
+// or in a map that is always filled together with it (an insert under the same key in the creating block).
+// Returns the number of nested inserts examined.
+func checkNestedMapWrites(p *core.Prog, r *core.Report, ds *core.Describer, rule string, fns []*ssa.Function) int {
+	n := 0
+	for _, f := range fns {
+		core.EachInstr(f, func(in ssa.Instruction) {
+			mu, ok := in.(*ssa.MapUpdate)
+			if !ok {
+				return
+			}
+			lk, ok := mu.Map.(*ssa.Lookup)
+			if !ok {
+				// v, ok := outer[k]; v[k2] = ...: the extract of a comma-ok lookup
+				if ex, isEx := mu.Map.(*ssa.Extract); isEx && ex.Index == 0 {
+					lk, ok = ex.Tuple.(*ssa.Lookup)
+				}
+				if !ok {
+					return
+				}
+			}
+			if _, isMap := lk.X.Type().Underlying().(*types.Map); !isMap {
+				return
+			}
+			n++
+			outer, key := lk.X, lk.Index
+			sameMap := func(a, b ssa.Value) bool { return a == b || sameExpr(a, b, 0) }
+			// creating blocks, and the maps filled together with outer there
+			creating := map[*ssa.BasicBlock]bool{}
+			core.EachInstr(f, func(x ssa.Instruction) {
+				if m2, ok := x.(*ssa.MapUpdate); ok && sameMap(m2.Map, outer) && sameExpr(m2.Key, key, 0) {
+					if _, fresh := m2.Value.(*ssa.MakeMap); fresh {
+						creating[m2.Block()] = true
+					}
+				}
+			})
+			var siblings []ssa.Value
+			core.EachInstr(f, func(x ssa.Instruction) {
+				if m2, ok := x.(*ssa.MapUpdate); ok && creating[m2.Block()] && sameExpr(m2.Key, key, 0) {
+					siblings = append(siblings, m2.Map)
+				}
+			})
+			// siblings are only ever inserted into in the creating blocks or under the same presence discipline: keep it
+			// simple and require that every insert into a sibling under this key that creates its entry lies in a creating block
+			present := func(c core.Cond) int {
+				if c.B == nil || c.B.Val == nil {
+					return -1
+				}
+				ex, ok := c.B.Val.(*ssa.Extract)
+				if !ok || ex.Index != 1 {
+					return -1
+				}
+				l2, ok := ex.Tuple.(*ssa.Lookup)
+				if !ok || !sameExpr(l2.Index, key, 0) {
+					return -1
+				}
+				okMap := sameMap(l2.X, outer)
+				for _, sb := range siblings {
+					if sameMap(l2.X, sb) {
+						okMap = true
+					}
+				}
+				if !okMap {
+					return -1
+				}
+				if c.BoolOnEdge(0) {
+					return 0
+				}
+				return 1
+			}
+			// a field-held outer map whose entries are created elsewhere (another method) cannot be decided here
+			if len(creating) == 0 {
+				if core.CountGuards(ds, f, present) == 0 {
+					r.Hold(rule, fmt.Sprintf("%s|nested-insert#%d|created-elsewhere", core.FnKey(f), n), p.Pos(mu.Pos()), "the entry written into is neither created nor tested in this function (out of this rule's reach)")
+					return
+				}
+			}
+			est := core.GuardEdges(ds, f, present)
+			w := core.PathQuery{Fn: f, Target: func(x ssa.Instruction) bool { return x == in }, Avoid: func(x ssa.Instruction) bool {
+				m2, ok := x.(*ssa.MapUpdate)
+				if !ok || !sameMap(m2.Map, outer) || !sameExpr(m2.Key, key, 0) {
+					return false
+				}
+				_, fresh := m2.Value.(*ssa.MakeMap)
+				return fresh
+			}, Edge: func(b *ssa.BasicBlock, succ int) bool {
+				if s, ok := est[b]; ok && s == succ {
+					return false
+				}
+				return true
+			}}.Find()
+			r.Check(w == nil, rule, fmt.Sprintf("%s|nested-insert#%d|entry-exists", core.FnKey(f), n), p.Pos(mu.Pos()), "the inner map written into was created, or found present, on every path",
+				"an insert into "+ds.D(lk).String()+"[...] can be reached without that entry having been created or found present for this key (e.g. its creation hangs on a different condition): assignment to entry in nil map panics", p.WitnessText(w)...)
+		})
+	}
+	return n
+}
